@@ -111,6 +111,11 @@ def stepWith (which : Which) (d : DSt) (fields : List String) (impl : String) : 
   | "setinbound" :: [n] =>
     -- the harness sets Session.SMState.Inbound directly (stanzas received meanwhile); no session, no effect
     ((if d.sess.present then { d with sess := { d.sess with inbound := n.toNat?.getD 0 } } else d), .det "ok" impl true true)
+  | ["pubapi"] =>
+    -- Client.Connect, then Client.Resume (confirmed), a Resume the server refuses at SASL, a Resume again: "the
+    -- session-established state is announced exactly when connecting succeeds" through the public entry points
+    let ms := "connect=ok:1 resume=ok:1 resumefail=err:0 resume2=ok:1"
+    (d, ⟨ms, ms == impl, true, ms == impl, "-"⟩)
   | ["wsconn", _] =>
     -- `WS://…`: not a WebSocket address for the constructors (Model.C20.isWs is case-sensitive): the XMPP transport
     -- cannot dial it, nothing is written; whatever happens, nothing sensitive goes out in clear
